@@ -157,3 +157,147 @@ pub proof fn lemma_acc_complete(c: Conflict, dc: bool, ids: IdsT, reads: RwsT, w
         }
     }
 }
+// ---- locating ids
+pub open spec fn in_stage(ids: IdsT, stage: int, d: SystemId) -> bool {
+    exists|g: int, p: int| 0 <= g < ids[stage].len() && 0 <= p < ids[stage][g]@.len() && #[trigger] ids[stage][g]@[p] == d
+}
+// d occurs in stage `stage` at a position visited before (a, b) in the walk over groups, then members
+pub open spec fn in_prefix(ids: IdsT, stage: int, a: int, b: int, d: SystemId) -> bool {
+    exists|g: int, p: int| 0 <= g < ids[stage].len() && 0 <= p < ids[stage][g]@.len() && (g < a || (g == a && p < b)) && #[trigger] ids[stage][g]@[p] == d
+}
+pub proof fn lemma_seq_remove<T>(s: Seq<T>, k: int)
+    requires 0 <= k < s.len()
+    ensures
+        forall|x: T| #[trigger] s.remove(k).contains(x) ==> s.contains(x),
+        forall|x: T| s.contains(x) && x != s[k] ==> #[trigger] s.remove(k).contains(x),
+        forall|i: int| 0 <= i < k ==> #[trigger] s.remove(k)[i] == s[i],
+        forall|i: int| k <= i < s.len() - 1 ==> #[trigger] s.remove(k)[i] == s[i + 1],
+        s.remove(k).len() == s.len() - 1,
+{
+    let r = s.remove(k);
+    assert forall|x: T| #[trigger] r.contains(x) implies s.contains(x) by {
+        let i = choose|i: int| 0 <= i < r.len() && r[i] == x;
+        if i < k { assert(s[i] == x); } else { assert(s[i + 1] == x); }
+    }
+    assert forall|x: T| s.contains(x) && x != s[k] implies #[trigger] r.contains(x) by {
+        let i = choose|i: int| 0 <= i < s.len() && s[i] == x;
+        if i < k { assert(r[i] == x); } else { assert(r[i - 1] == x); }
+    }
+}
+// ---- the builder's tables
+impl StagesBuilder {
+    pub open spec fn nstages(&self) -> int { self.stages@.len() as int }
+    // C04: the five tables are kept in lock-step (same shape everywhere), groups are non-empty and within capacity
+    pub open spec fn lockstep(&self) -> bool {
+        &&& self.ids@.len() == self.stages@.len()
+        &&& self.reads@.len() == self.stages@.len()
+        &&& self.writes@.len() == self.stages@.len()
+        &&& self.running_time@.len() == self.stages@.len()
+        &&& self.barrier <= self.stages@.len()
+        &&& forall|s: int| 0 <= s < self.nstages() ==> {
+            &&& #[trigger] self.ids@[s]@.len() == self.stages@[s].groups@.len()
+            &&& self.reads@[s]@.len() == self.ids@[s]@.len()
+            &&& self.writes@[s]@.len() == self.ids@[s]@.len()
+            &&& self.running_time@[s]@.len() == self.ids@[s]@.len()
+            &&& self.ids@[s]@.len() >= 1
+        }
+        &&& forall|s: int, g: int| #![trigger self.ids@[s]@[g]] #![trigger self.running_time@[s]@[g]] #![trigger self.stages@[s].groups@[g]]
+            0 <= s < self.nstages() && 0 <= g < self.ids@[s]@.len() ==> {
+            &&& self.ids@[s]@[g]@.len() == self.stages@[s].groups@[g]@.len()
+            &&& 1 <= self.ids@[s]@[g]@.len() <= MAX_SYSTEMS_PER_GROUP
+            &&& self.running_time@[s]@[g] as int <= 5 * self.ids@[s]@[g]@.len()
+        }
+    }
+    // id d sits in some stage t with lo <= t < hi
+    pub open spec fn located_in(&self, d: SystemId, lo: int, hi: int) -> bool {
+        exists|t: int| lo <= t < hi && 0 <= t < self.ids@.len() && #[trigger] in_stage(self.ids@, t, d)
+    }
+    // C10: stage t may be passed over only for a reason: a group whose accumulated access conflicts with the new
+    // system, or a dependency of the new system located in t or later
+    pub open spec fn skip_justified(&self, t: int, nr: Seq<ResourceId>, nw: Seq<ResourceId>, dep0: Seq<SystemId>) -> bool {
+        (exists|g: int| 0 <= g < self.ids@[t]@.len() && res_conflict(#[trigger] self.reads@[t]@[g]@, self.writes@[t]@[g]@, nr, nw))
+        || (exists|i: int| 0 <= i < dep0.len() && self.located_in(#[trigger] dep0[i], t, self.ids@.len() as int))
+    }
+    pub open spec fn target_stage(&self, r: InsertionTarget) -> int {
+        match r { InsertionTarget::Stage(s) => s as int, InsertionTarget::Group(s, _) => s as int, InsertionTarget::NewStage => self.nstages() }
+    }
+    pub open spec fn target_safe(&self, r: InsertionTarget) -> bool {
+        match r {
+            InsertionTarget::Stage(s) => s < self.nstages(),
+            InsertionTarget::Group(s, g) => s < self.nstages() && g < self.ids@[s as int]@.len() && self.ids@[s as int]@[g as int]@.len() < MAX_SYSTEMS_PER_GROUP,
+            InsertionTarget::NewStage => true,
+        }
+    }
+    // C01: the chosen slot is compatible with every *other* group of the chosen stage
+    pub open spec fn target_iso(&self, r: InsertionTarget, nr: Seq<ResourceId>, nw: Seq<ResourceId>) -> bool {
+        match r {
+            InsertionTarget::Stage(s) => forall|g: int| 0 <= g < self.ids@[s as int]@.len() ==> !res_conflict(#[trigger] self.reads@[s as int]@[g]@, self.writes@[s as int]@[g]@, nr, nw),
+            InsertionTarget::Group(s, g) => forall|h: int| 0 <= h < self.ids@[s as int]@.len() && h != g ==> !res_conflict(#[trigger] self.reads@[s as int]@[h]@, self.writes@[s as int]@[h]@, nr, nw),
+            InsertionTarget::NewStage => true,
+        }
+    }
+    // C02: every dependency sits in an earlier stage, or in the group that is joined (the new system is appended behind it)
+    pub open spec fn target_dep(&self, r: InsertionTarget, dep0: Seq<SystemId>) -> bool {
+        match r {
+            InsertionTarget::Stage(s) => forall|i: int| 0 <= i < dep0.len() ==> self.located_in(#[trigger] dep0[i], 0, s as int),
+            InsertionTarget::Group(s, g) => forall|i: int| 0 <= i < dep0.len() ==> self.located_in(#[trigger] dep0[i], 0, s as int) || self.ids@[s as int]@[g as int]@.contains(dep0[i]),
+            InsertionTarget::NewStage => true,
+        }
+    }
+    pub open spec fn found_target(found: Option<(usize, Conflict)>) -> InsertionTarget {
+        match found {
+            Some((s, Conflict::None)) => InsertionTarget::Stage(s),
+            Some((s, Conflict::Single(g))) => InsertionTarget::Group(s, g),
+            _ => InsertionTarget::NewStage,
+        }
+    }
+    pub proof fn lemma_located_split(&self, d: SystemId, lo: int, mid: int, hi: int)
+        requires lo <= mid <= hi
+        ensures self.located_in(d, lo, hi) <==> self.located_in(d, lo, mid) || self.located_in(d, mid, hi)
+    {
+        if self.located_in(d, lo, hi) {
+            let t = choose|t: int| lo <= t < hi && 0 <= t < self.ids@.len() && #[trigger] in_stage(self.ids@, t, d);
+            if t < mid { assert(self.located_in(d, lo, mid)); } else { assert(self.located_in(d, mid, hi)); }
+        }
+    }
+    pub proof fn lemma_located_one(&self, d: SystemId, t: int)
+        requires 0 <= t < self.ids@.len()
+        ensures self.located_in(d, t, t + 1) <==> in_stage(self.ids@, t, d)
+    {
+        if in_stage(self.ids@, t, d) { assert(self.located_in(d, t, t + 1)); }
+    }
+    // C10, one step of the scan: a stage that was refused (verdict not None) is passed over for a reason
+    pub proof fn lemma_skip(&self, t: int, c: Conflict, nr: Seq<ResourceId>, nw: Seq<ResourceId>, dep0: Seq<SystemId>, pending: Seq<SystemId>)
+        requires
+            self.lockstep(), 0 <= t < self.nstages(), !(c is None),
+            verdict_fit(c, self.ids@, self.reads@, self.writes@, t, nr, nw, pending),
+            forall|i: int| 0 <= i < pending.len() ==> dep0.contains(#[trigger] pending[i]),
+            forall|i: int| 0 <= i < pending.len() ==> !self.located_in(#[trigger] pending[i], 0, t),
+            forall|i: int| 0 <= i < dep0.len() ==> self.located_in(#[trigger] dep0[i], 0, self.nstages()),
+        ensures self.skip_justified(t, nr, nw, dep0)
+    {
+        let n = self.nstages();
+        match c {
+            Conflict::None => {}
+            Conflict::Single(h) => {
+                if !res_conflict(self.reads@[t]@[h as int]@, self.writes@[t]@[h as int]@, nr, nw) {
+                    let (a, b) = choose|a: int, b: int| 0 <= a < pending.len() && 0 <= b < self.ids@[t]@[h as int]@.len() && pending[a] == self.ids@[t]@[h as int]@[b];
+                    let d = pending[a];
+                    assert(self.ids@[t]@[h as int]@[b] == d);
+                    assert(in_stage(self.ids@, t, d));
+                    assert(self.located_in(d, t, n));
+                    let j = choose|j: int| 0 <= j < dep0.len() && dep0[j] == d;
+                    assert(self.located_in(dep0[j], t, n));
+                }
+            }
+            Conflict::Multiple => {
+                if pending.len() != 0 {
+                    let d = pending[0];
+                    let j = choose|j: int| 0 <= j < dep0.len() && dep0[j] == d;
+                    self.lemma_located_split(d, 0, t, n);
+                    assert(self.located_in(dep0[j], t, n));
+                }
+            }
+        }
+    }
+}
